@@ -65,7 +65,29 @@ func (g *egen) atom() *gexpr {
 	}
 }
 
+func lit(n int64) *gexpr { return &gexpr{kind: 0, n: n} }
+func bin(op int, a, b *gexpr) *gexpr { return &gexpr{kind: 4, op: op, a: a, b: b} }
+
+// the ends of the 32-bit range, reached without a literal or an intermediate value outside it
+func (g *egen) edge() *gexpr {
+	switch g.r.Intn(5) {
+	case 0:
+		return bin(1, bin(1, lit(0), lit(2147483647)), lit(1)) // 0-2147483647-1 = -2^31
+	case 1:
+		return bin(2, &gexpr{kind: 3, n: 1, a: lit(65536)}, lit(32768)) // -65536*32768 = -2^31
+	case 2:
+		return lit(2147483647)
+	case 3:
+		return bin(1, lit(0), lit(2147483647))
+	default:
+		return bin(0, bin(2, lit(32768), lit(65535)), lit(32767)) // 2^31-1
+	}
+}
+
 func (g *egen) gen(depth int) *gexpr {
+	if depth >= 2 && g.r.Intn(50) == 0 {
+		return g.edge()
+	}
 	if depth <= 0 || g.r.Intn(4) == 0 {
 		return g.atom()
 	}
@@ -400,7 +422,17 @@ func addFors(r *rand.Rand, items [][]int64, o progOpts, cfg gcfg) [][]int64 {
 		out = append(out, counter)
 		// the count: a literal, or an expression over an EQU name whose value is compound
 		// (textual substitution: with e equ x+y, e*2 is x+y*2 and k-e is k-x+y)
-		switch r.Intn(6) {
+		switch r.Intn(7) {
+		case 4:
+			// an EQU whose parentheses matter: e equ (a+b)*c+d
+			c := 2 + r.Intn(2)
+			q, d := cnt/c, cnt%c
+			a := 0
+			if q >= 1 {
+				a = 1 + r.Intn(q)
+			}
+			id := newEqu(bin(0, bin(2, par(bin(0, lit(int64(a)), lit(int64(q-a)))), lit(int64(c))), lit(int64(d))))
+			out = (&gexpr{kind: 1, n: id}).enc(out)
 		case 5:
 			// a predefined name in the count: MAXLENGTH-(len-cnt), MINDISTANCE-(dist-cnt), CORESIZE-(M-cnt)
 			pre, val := int64(2), cfg.ln
